@@ -226,6 +226,7 @@ INT_FUNCS = {"int", "floor", "ceil", "round", "floordiv"}
 
 class AffineDomain(Domain):
     name = "A"
+    split_boolops = True
 
     def __init__(self, model, integer_syms=(), nonneg_syms=(), positive_syms=(), param_seeds=None, vector_params=()):
         self.model = model
@@ -933,6 +934,19 @@ class AffineDomain(Domain):
             if not _fm_infeasible(self._rows(g, cs + facts), is_int=self.is_integer_atom):
                 return False
         return True
+
+    def proves_equal(self, a: "A", b: "A", pcs=(), extra=()) -> bool:
+        """a == b, syntactically or as the two inequalities a - b >= 0 and b - a >= 0 under the path conditions (the inequality prover splits over the
+        min / max atoms, so `max(z, 0) - max(-z, 0) == z` is decided)."""
+        if a.equals(b):
+            return True
+        d = self.add(a, self.neg(b))
+        if not d.is_poly():
+            return False
+        try:
+            return bool(self.prove_ge(d.poly(), pcs, extra=extra) and self.prove_ge((self.neg(d)).poly(), pcs, extra=extra))
+        except Exception:
+            return False
 
     def infeasible(self, pcs) -> bool:
         """Path conditions contradict each other (prove -1 >= 0)."""
